@@ -46,7 +46,16 @@ def strat_mie(tier):
         "pl": st.fixed_dictionaries({"fx": gen.rounded(-0.3, 1.3, 4), "fy": gen.rounded(-0.3, 1.3, 4),
                                      "kgap": gen.logu(0.02, 3e3)}),
         "radial": st.booleans(), "full": st.booleans(),
+        # aim one detector point at a distance k r equal to a zero of a low-order spherical Bessel function
+        # (j_0: n pi; j_1: roots of tan x = x), where implementations that normalise a recurrence by j_0 or j_1
+        # have to switch branches
+        "kr_target": st.one_of(st.none(), st.none(), st.tuples(st.sampled_from(_BESSEL_ZEROS), st.floats(0.05, 1.5), st.floats(0, 6.283)).map(list)),
     })
+
+
+_BESSEL_ZEROS = [3.141592653589793, 6.283185307179586, 9.42477796076938, 12.566370614359172, 15.707963267948966,
+                 4.493409457909064, 7.725251836937707, 10.904121659428899, 14.066193912831473, 17.220755271930768,
+                 20.371302959287563, 23.519452498689007]
 
 
 def _mi_ok(s):
@@ -62,6 +71,15 @@ def run_mie(case):
     radius = s["x"] / k
     center = gen.place(case["pl"], case["det"], unit, radius, k)
     det = gen.build_detector(case["det"], unit)
+    kt = case.get("kr_target")
+    if kt is not None and kt[0] > 1.05 * s["x"]:
+        # move the sphere so that the first detector point lies at distance kr* from its centre, in direction (th, ph)
+        p0 = gen.detector_points_xyz(case["det"], unit)[0]
+        rr = kt[0] / k
+        center = [float(p0[0] + rr * math.sin(kt[1]) * math.cos(kt[2])), float(p0[1] + rr * math.sin(kt[1]) * math.sin(kt[2])),
+                  float(p0[2] + rr * math.cos(kt[1]))]
+        case = dict(case, det={"kind": "points", "pts": [case["det"]["pts"][0]]})
+        det = gen.build_detector(case["det"], unit)
     sph = gen.make_sphere(s, o, center)
     theory = Mie(compute_escat_radial=case["radial"], full_radial_dependence=case["full"])
     res = calc_field(det, sph, theory=theory, **gen.optics_kwargs(o))
@@ -75,6 +93,8 @@ def run_mie(case):
     labels = [size_class(s["x"]), "absorbing" if s["m"][1] else "real",
               "radial" if case["radial"] else "noradial", "full" if case["full"] else "asymptotic",
               "near" if case["pl"]["kgap"] < 3 else "far"]
+    if kt is not None and kt[0] > 1.05 * s["x"]:
+        labels.append("kr_at_bessel_zero")
     if not (np.all(np.isfinite(want)) and np.all(np.isfinite(want_w))):
         return Outcome(None, False, labels + ["reference_nonfinite"], skipped=True)
     if not np.all(np.isfinite(got)):
